@@ -6,6 +6,7 @@
 mod codec;
 mod ctor;
 mod fm;
+mod gens;
 mod grp;
 mod session;
 
@@ -46,6 +47,26 @@ fn main() {
                 }
                 let spec: Value = serde_json::from_str(&line).expect("bad spec json");
                 writeln!(out, "{}", codec::run(&spec)).unwrap();
+            }
+        },
+        Some("gens") => {
+            for line in stdin.lock().lines() {
+                let line = line.unwrap();
+                if line.trim().is_empty() {
+                    continue;
+                }
+                let spec: Value = serde_json::from_str(&line).expect("bad spec json");
+                let rec = match spec["op"].as_str().unwrap_or("describe") {
+                    "threads" => gens::threads(&spec),
+                    "history" => gens::history(&spec),
+                    _ => gens::describe(
+                        spec["bits"].as_u64().unwrap() as usize,
+                        spec["cap"].as_u64().unwrap() as usize,
+                        spec["T"].as_u64().unwrap_or(6) as usize,
+                        spec["table"].as_bool().unwrap_or(false),
+                    ),
+                };
+                writeln!(out, "{}", rec).unwrap();
             }
         },
         Some("ctor") => {
